@@ -1,5 +1,6 @@
 (* C19  Credential lookup from config files is deterministic with fixed precedence.
-   Statements only; proofs live in Proofs/AuthFile.v (and Base/Base64.v for the codec).
+   Statements only; proofs live in Proofs/AuthFile.v (and Base/Base64.v for the codec) and, for
+   the real helper runner (ExecHelperWithEnv, Model/AuthExec.v), in Proofs/AuthExec.v.
 
    Vocabulary (Model/AuthFile.v).  [doc] is what json.Unmarshal delivers (unique keys, no
    derivedFrom: [wf_auths]).  [sched] is the sequence of keys the statement
@@ -10,7 +11,7 @@
    no error prose.  [ref_lookup] / [ref_table] (Proofs/AuthFile.v) read the answer off the
    DOCUMENT without any loop or order. *)
 From Coq Require Import String.
-From OCI Require Import Model.AuthFile Proofs.AuthFile.
+From OCI Require Import Model.AuthFile Proofs.AuthFile Model.AuthExec Proofs.AuthExec.
 From Coq Require Import Permutation.
 
 (* Determinism, part 1: whatever order the map iteration takes and whichever derived keys it
@@ -236,4 +237,100 @@ Example C19_example_precedence :
   observe (entry_for_registry c run (s "b"))
   = ({| ce_refresh := []; ce_access := []; ce_user := s "bu"; ce_pass := s "bp" |}, ENone) /\
   runner_calls c (s "b") = [(s "store", s "b")].
+Proof. vm_compute. repeat split. Qed.
+
+(* ---------- the real helper runner (nil HelperRunner: ExecHelperWithEnv) ----------
+
+   [path] is what the operating system holds: the directories of PATH in order, each a listing
+   file name -> kind of file ([pfile]); [unjson] is json.Unmarshal on the helper's output (any
+   function); [real_runner unjson path] is the model of ExecHelperWithEnv over them. *)
+
+(* The runner reports "helper not found" exactly when no directory of PATH holds an executable
+   regular file docker-credential-NAME: a directory of that name, a file without an execute bit
+   or a dangling link do not count as the helper, and a file that is executable but cannot be
+   started does. *)
+Theorem C19_exec_missing_iff : forall unjson path helper host,
+  snd (real_runner unjson path helper host) = HMissing <->
+  (forall d f, In d path -> map_get (helper_prefix ++ helper) d = Some f -> is_program f = false).
+Proof.
+  intros. rewrite exec_missing_iff. apply look_path_none_iff.
+Qed.
+Print Assumptions C19_exec_missing_iff.
+
+(* LookPath is the first program of that name on PATH. *)
+Theorem C19_exec_look_path_first : forall path file,
+  look_path path file = hd_error (programs_named path file).
+Proof. exact look_path_first. Qed.
+Print Assumptions C19_exec_look_path_first.
+
+(* A helper that is installed but cannot be started is an error of the helper, not a missing
+   helper, and carries no credentials. *)
+Theorem C19_exec_unstartable_is_other_error : forall unjson path helper host,
+  look_path path (helper_prefix ++ helper) = Some FBroken ->
+  real_runner unjson path helper host = (zero_entry, HOther).
+Proof. exact exec_unstartable. Qed.
+Print Assumptions C19_exec_unstartable_is_other_error.
+
+(* A helper that starts: exit 0 with credentials = those credentials (user name <token>: a
+   refresh token); exit 0 with anything the decoder rejects = other error; non-zero exit with
+   the not-found message (surrounding white space ignored) = no information, no error; any other
+   non-zero exit = other error.  Never "helper not found". *)
+Theorem C19_exec_program_answer : forall unjson path helper host ans dflt,
+  look_path path (helper_prefix ++ helper) = Some (FProg ans dflt) ->
+  real_runner unjson path helper host = answer_result unjson (answer_for ans dflt host)
+  /\ snd (answer_result unjson (answer_for ans dflt host)) <> HMissing.
+Proof.
+  intros. split; [now apply exec_program | apply answer_result_not_missing].
+Qed.
+Print Assumptions C19_exec_program_answer.
+
+(* An error of the real runner never comes with credentials. *)
+Theorem C19_exec_error_zero_entry : forall unjson path helper host,
+  snd (real_runner unjson path helper host) <> HNil -> fst (real_runner unjson path helper host) = zero_entry.
+Proof. exact exec_error_zero_entry. Qed.
+Print Assumptions C19_exec_error_zero_entry.
+
+(* The precedence clause end to end with the real runner.  No per-host helper, a default store
+   named: without a program of that name on PATH the auths table answers ... *)
+Theorem C19_exec_store_absent_falls_back : forall unjson path c h,
+  map_get h (cd_helpers c) = None -> cd_store c <> [] ->
+  look_path path (helper_prefix ++ cd_store c) = None ->
+  entry_for_registry c (real_runner unjson path) h = table_lookup c h.
+Proof. exact exec_store_absent_falls_back. Qed.
+Print Assumptions C19_exec_store_absent_falls_back.
+
+(* ... with one, the store answers whatever it is and does - the table is not consulted ... *)
+Theorem C19_exec_store_present_wins : forall unjson path c h f,
+  map_get h (cd_helpers c) = None -> cd_store c <> [] ->
+  look_path path (helper_prefix ++ cd_store c) = Some f ->
+  entry_for_registry c (real_runner unjson path) h = helper_answer (real_runner unjson path (cd_store c) h).
+Proof. exact exec_store_present_wins. Qed.
+Print Assumptions C19_exec_store_present_wins.
+
+(* ... in particular a store that cannot be started makes the lookup fail with the zero entry
+   although the table may know the host. *)
+Theorem C19_exec_store_unstartable_is_error : forall unjson path c h,
+  map_get h (cd_helpers c) = None -> cd_store c <> [] ->
+  look_path path (helper_prefix ++ cd_store c) = Some FBroken ->
+  entry_for_registry c (real_runner unjson path) h = (zero_entry, Some (LEHelper HOther)).
+Proof. exact exec_store_unstartable_is_error. Qed.
+Print Assumptions C19_exec_store_unstartable_is_error.
+
+(* The hypotheses are satisfiable: PATH = [a directory of that name; a file without execute bit;
+   a file that cannot be started; a working helper]: the third one is the helper, the lookup of a
+   host the table knows fails; without it the working helper answers; with only the first two
+   the table answers. *)
+Example C19_example_exec :
+  let name := helper_prefix ++ s "store" in
+  let prog := FProg [] {| pe_exit0 := true; pe_out := s "ignored" |} in
+  let unjson : bytes -> option (bytes * bytes) := fun _ => Some (s "hu", s "hp") in
+  let c := {| cd_auths := [(s "r", {| ac_derived := []; ac_user := s "tu"; ac_pass := s "tp"; ac_auth := [];
+                                      ac_idtok := []; ac_regtok := [] |})];
+              cd_store := s "store"; cd_helpers := [] |} in
+  observe (entry_for_registry c (real_runner unjson [[(name, FDir)]; [(name, FNoExec)]; [(name, FBroken)]; [(name, prog)]]) (s "r"))
+  = (zero_entry, EOther) /\
+  observe (entry_for_registry c (real_runner unjson [[(name, FDir)]; [(name, FNoExec)]; [(name, prog)]]) (s "r"))
+  = ({| ce_refresh := []; ce_access := []; ce_user := s "hu"; ce_pass := s "hp" |}, ENone) /\
+  observe (entry_for_registry c (real_runner unjson [[(name, FDir)]; [(name, FNoExec)]; [(name, FDangling)]]) (s "r"))
+  = ({| ce_refresh := []; ce_access := []; ce_user := s "tu"; ce_pass := s "tp" |}, ENone).
 Proof. vm_compute. repeat split. Qed.
